@@ -62,6 +62,9 @@ def gen_string(rng: random.Random, tricky: float) -> str:
 
 def gen_value(rng: random.Random, tricky: float, depth: int = 0):
     r = rng.random()
+    if depth == 0 and rng.random() < 0.0015:
+        # larger than the reader's 256 KiB buffer (and not compressible): a document, a base64 blob, a long CJK text
+        return "".join(rng.choice(PLAIN) + rng.choice("0123456789") for _ in range(rng.choice([135_000, 150_000])))
     if depth == 0 and rng.random() < 0.01:
         # larger than the default I/O buffer (and not compressible by the run-length layer)
         return "".join(rng.choice(PLAIN) + rng.choice("0123456789") for _ in range(rng.choice([4200, 5000, 9000])))
@@ -228,9 +231,10 @@ def gen_spec(seed: int, config: str | None = None) -> dict:
             faults.append({"kind": "dup_append", "serial": rng.choice(all_sends)[2]})
         if "corrupt" in kinds and all_sends:
             faults.append({"kind": "corrupt", "serial": rng.choice(all_sends)[2], "at": rng.randrange(1 << 16), "xor": rng.choice([1, 2, 0x20, 0x80, 0xFF])})
-    big = any(len(json.dumps(op["data"])) > 2000 for n in nodes for op in n["script"] if op["op"] == "send")
+    sizes = [len(json.dumps(op["data"])) for n in nodes for op in n["script"] if op["op"] == "send"]
+    big = any(z > 2000 for z in sizes)
     if big and knobs["read_chunk"]:
-        knobs["read_chunk"] = max(knobs["read_chunk"], 1024)  # byte-at-a-time reads of a 20 KB record only burn the step budget
+        knobs["read_chunk"] = max(knobs["read_chunk"], 1024 if max(sizes) < 100_000 else 65536)  # byte-at-a-time reads of a 20 KB record only burn the step budget
     return {"property": PROP, "config": config, "nodes": nodes, "faults": faults, "clock": clock, "knobs": knobs}
 
 
